@@ -74,14 +74,16 @@ c.assumptions.append('constructing a ParseContext (which may process the imports
                      'constants only')
 register(c)
 
-world.VAL_METHOD_CONTRACTS['process_import'] = 'config.py::ParseContext.process_import'
-c = Contract('config.py::ParseContext.process_import', ['C16', 'C19', 'C15'], kind='assumed')
+world.VAL_METHOD_CONTRACTS['process_import'] = 'config.py::ParseContext.process_import#opaque'
+c = Contract('config.py::ParseContext.process_import#opaque', ['C16', 'C19', 'C15'], kind='assumed')
 c.param('self', KVal)
 c.param('statement', KVal)
 c.modifies = set(IMPORT_EFFECTS)
 c.may_raise_other = True
-c.assumptions.append('importing a module named by a config file affects registration '
-                     'state and constants only (module code is arbitrary Python)')
+c.assumptions.append('view of process_import for callers that hold the parse context as an '
+                     'opaque object: touches registration state and constants only, may raise '
+                     '(implied by the proved contract of ParseContext.process_import in '
+                     'e_dynamic_registration.py)')
 register(c)
 
 c = Contract('config.py::_print_unknown_import_message', ['C15'], kind='assumed')
